@@ -294,6 +294,13 @@ func (x *Exec) heapGet(st *State, key string, s Sort) Term {
 	if t, ok := st.heap[key]; ok {
 		return t
 	}
+	if st.names["$stale:"+key] == true {
+		// havocked before its first use on this path
+		delete(st.names, "$stale:"+key)
+		t := x.fresh(key+"_h", s)
+		st.heap[key] = t
+		return t
+	}
 	return x.declConst(key+"_0", s)
 }
 
@@ -309,7 +316,8 @@ func (x *Exec) heapHavoc(st *State, key string) {
 		}
 	}
 	if s == "" {
-		return // never read or written so far: its initial value is already arbitrary... but later reads must not see _0
+		st.names["$stale:"+key] = true // sort not known yet: the first read on this path gets a fresh version
+		return
 	}
 	st.heap[key] = x.fresh(key+"_h", s)
 }
@@ -371,8 +379,8 @@ func (x *Exec) fieldRead(st *State, owner types.Type, f *types.Var, ref Term) Te
 
 func isRefType(t types.Type) bool {
 	switch t.Underlying().(type) {
-	case *types.Pointer, *types.Slice, *types.Map, *types.Chan, *types.Interface, *types.Signature:
-		return true
+	case *types.Pointer, *types.Slice, *types.Map, *types.Chan, *types.Interface, *types.Signature, *types.Struct:
+		return true // handles: pre-state handles are >= 0, allocations of the unit are negative
 	}
 	return false
 }
@@ -814,6 +822,23 @@ func (x *Exec) tableAssume(st *State, o *types.Var, v Term) {
 	if x.declared[name] {
 		return
 	}
+	if at, ok := o.Type().Underlying().(*types.Array); ok {
+		// keyed array literal of constants: element k is the listed value, the rest is zero
+		es := x.sortOf(at.Elem())
+		arr := "((as const " + string(arraySort(SInt, es)) + ") " + zeroOf(es).S + ")"
+		for _, kv := range tab {
+			k, ok1 := x.constTerm(kv[0], types.Typ[types.Int])
+			vv, ok2 := x.constTerm(kv[1], at.Elem())
+			if !ok1 || !ok2 {
+				return
+			}
+			arr = "(store " + arr + " " + asIndex(k).S + " " + vv.S + ")"
+		}
+		se := x.heapGet(st, x.seKey(es), arraySort(SInt, arraySort(SInt, es)))
+		x.declare("(assert (= (select "+se.S+" "+v.S+") "+arr+"))", name)
+		x.noteAssume("package-level table " + o.Name() + " is never assigned after its initialiser (checked syntactically)")
+		return
+	}
 	mt, ok := o.Type().Underlying().(*types.Map)
 	if !ok {
 		return
@@ -934,7 +959,7 @@ func (x *Exec) evalUnary(e *ast.UnaryExpr, st *State) (Value, types.Type) {
 		if a.Sort.isBV() {
 			return Term{"(bvnot " + a.S + ")", a.Sort}, t
 		}
-		engineFail("bitwise complement needs ints bv")
+		return x.wrap(x.uf("bnotZ", SInt, a), t), t
 	case token.AND:
 		// address-of: composite literal or struct location
 		if cl, ok := e.X.(*ast.CompositeLit); ok {
@@ -1078,6 +1103,23 @@ func (x *Exec) evalBinary(e *ast.BinaryExpr, st *State) (Value, types.Type) {
 			return x.wrap(x.uf("tmodZ", SInt, l, r), rtyp), rtyp
 		}
 		return Term{"(tmod " + l.S + " " + r.S + ")", SInt}, rtyp
+	}
+	if e.Op == token.SHL && isNumLit(l.S) && x.mode != "bv" {
+		// constant << e over the integers: an explicit table for 0 <= e < 64
+		t := "0"
+		for k := 63; k >= 0; k-- {
+			t = fmt.Sprintf("(ite (= %s %d) (* %s %s) %s)", r.S, k, l.S, pow2(k), t)
+		}
+		return x.wrap(Term{t, SInt}, rtyp), rtyp
+	}
+	if x.mode != "bv" {
+		// bitwise operators over mathematical integers are kept uninterpreted (units that state
+		// their semantics run in bit-vector mode)
+		names := map[token.Token]string{token.AND: "bandZ", token.OR: "borZ", token.XOR: "bxorZ", token.AND_NOT: "bandnotZ", token.SHL: "bshlZ", token.SHR: "bshrZ"}
+		if nm, ok := names[e.Op]; ok {
+			x.noteAssume("bitwise operator " + e.Op.String() + " uninterpreted in integer mode")
+			return x.wrap(x.uf(nm, SInt, l, r), rtyp), rtyp
+		}
 	}
 	engineFail("operator %s on integers needs ints bv (%s)", e.Op, types.ExprString(e))
 	return nil, nil
